@@ -9,7 +9,12 @@
      5. bounds of every index written, under the weaker [safe_builder]
      6. the whole step (four allocators + overflow word): never_silent,
         no_overflow_same_as_ample, alloc_sched, alloc_in_bounds
-     7. refutations on explicit builder values and necessity of the exact guard; examples *)
+     7. refutations on explicit builder values and necessity of the exact guard; examples
+     8. parts 10-14: the repairs [nnzfix] of the njmax_nnz class (prezero / direct flag / clamp):
+        weak invariant for the direct flag, independence of counters and rows from the stored
+        metadata, silence of the probe when everything fits, and the whole-step theorems
+        never_silent_fx, no_overflow_same_as_ample_fx, alloc_sched_fx, alloc_in_bounds_fx
+        (fx = nofix is the original code) *)
 From Coq Require Import ZArith List Bool Lia ZifyBool String Permutation.
 From VF Require Import Model.Alloc.
 Import ListNotations.
@@ -995,146 +1000,11 @@ Lemma overflow_any_false r :
 Proof.
   unfold overflow_any. destruct (x_nefc r), (x_nnz r), (x_broad r), (x_narrow r), (x_nvmax r); simpl; intros; try discriminate; auto.
 Qed.
-
-(* projections of run_builders (avoid unfolding the overflow word) *)
-Section Proj.
-Variables (zskip : bool) (c : caps) (sparse : bool) (a r : list Z) (ov0 : Z) (rq : requests).
-Notation R := (run_builders zskip c sparse a r ov0 rq).
-Lemma rb_efc : x_efc R = run_tasks (njmax c) (njmax_nnz c) sparse (r_efc rq) (init_st a r). Proof. reflexivity. Qed.
-Lemma rb_bp : x_bp R = run_collision zskip (naconmax c) (r_bp rq). Proof. reflexivity. Qed.
-Lemma rb_np : x_np R = run_collision zskip (naconmax c) (r_np rq). Proof. reflexivity. Qed.
-Lemma rb_dof : x_dof R = run_tasks (nvmax c) 0 false (r_dof rq) (init_st [] []). Proof. reflexivity. Qed.
-Lemma rb_nefc : x_nefc R = ov_nefc (njmax c) (x_efc R). Proof. reflexivity. Qed.
-Lemma rb_nnz : x_nnz R = ov_nnz (njmax c) (njmax_nnz c) sparse (x_efc R). Proof. reflexivity. Qed.
-Lemma rb_broad : x_broad R = ov_nefc (naconmax c) (x_bp R). Proof. reflexivity. Qed.
-Lemma rb_narrow : x_narrow R = ov_nefc (naconmax c) (x_np R). Proof. reflexivity. Qed.
-Lemma rb_nvmax : x_nvmax R = ov_nefc (nvmax c) (x_dof R). Proof. reflexivity. Qed.
-Lemma rb_word : x_word R = Z.lor ov0 (bitz (x_nefc R) 1 + bitz (x_nnz R) 2 + bitz (x_broad R) 4 + bitz (x_narrow R) 8 + bitz (x_nvmax R) 128).
-Proof. reflexivity. Qed.
-End Proj.
 (* the collision pipeline is launched: the host guard `d.naconmax == 0` is absent or does not fire *)
 Definition collision_runs (zskip : bool) (c : caps) : Prop := zskip && (naconmax c =? 0) = false.
 Lemma run_collision_runs zskip c ts :
   collision_runs zskip c -> run_collision zskip (naconmax c) ts = run_tasks (naconmax c) 0 false ts (init_st [] []).
 Proof. unfold collision_runs, run_collision. intros ->. reflexivity. Qed.
-Ltac rbsimpl := rewrite ?rb_nefc, ?rb_nnz, ?rb_broad, ?rb_narrow, ?rb_nvmax, ?rb_efc, ?rb_bp, ?rb_np, ?rb_dof in *.
-
-Section Whole.
-Variables (rbs sbs : list builder) (sparse zskip : bool).
-Hypothesis Hrbs : wf_builders sparse rbs = true.
-Hypothesis Hsbs : wf_builders false sbs = true.
-
-Theorem never_silent : forall c adr0 rnz0 ov0 rq,
-  collision_runs zskip c -> requests_use rbs sbs rq -> meta_ok (njmax c) sparse adr0 rnz0 ->
-  dropped (run_builders zskip c sparse adr0 rnz0 ov0 rq) = true ->
-  overflow_any (run_builders zskip c sparse adr0 rnz0 ov0 rq) = true.
-Proof.
-  intros c a r ov0 rq Hz (U1 & U2 & U3 & U4) Hm Hd.
-  unfold dropped, overflow_any in *. rbsimpl. rewrite !(run_collision_runs _ _ _ Hz) in *.
-  pose proof (G_never_silent (njmax c) (njmax_nnz c) sparse (r_efc rq) a r (uses_wf _ _ _ Hrbs U1) Hm) as A1.
-  pose proof (G_never_silent (naconmax c) 0 false (r_bp rq) [] [] (uses_wf _ _ _ Hsbs U2) (meta_dense _)) as A2.
-  pose proof (G_never_silent (naconmax c) 0 false (r_np rq) [] [] (uses_wf _ _ _ Hsbs U3) (meta_dense _)) as A3.
-  pose proof (G_never_silent (nvmax c) 0 false (r_dof rq) [] [] (uses_wf _ _ _ Hsbs U4) (meta_dense _)) as A4.
-  rewrite overflowed_dense in A2, A3, A4. unfold overflowed in A1.
-  repeat (apply orb_prop in Hd; destruct Hd as [Hd|Hd]).
-  - apply A1 in Hd. apply orb_prop in Hd. destruct Hd as [-> | ->]; simpl; auto. rewrite !orb_true_r. auto.
-  - rewrite (A2 Hd). rewrite !orb_true_r. auto.
-  - rewrite (A3 Hd). rewrite !orb_true_r. auto.
-  - rewrite (A4 Hd). rewrite !orb_true_r. auto.
-Qed.
-
-(* no overflow bit: exactly the requested rows, whatever the (ample or not) capacities and schedule *)
-Theorem no_overflow_same_as_ample : forall c c' adr0 rnz0 adr0' rnz0' ov0 ov0' rq rq',
-  collision_runs zskip c -> collision_runs zskip c' ->
-  requests_use rbs sbs rq -> is_schedule rq rq' -> caps_nonneg c -> caps_nonneg c' ->
-  meta_ok (njmax c) sparse adr0 rnz0 -> meta_ok (njmax c') sparse adr0' rnz0' ->
-  overflow_any (run_builders zskip c sparse adr0 rnz0 ov0 rq) = false ->
-  overflow_any (run_builders zskip c' sparse adr0' rnz0' ov0' rq') = false ->
-  dropped (run_builders zskip c sparse adr0 rnz0 ov0 rq) = false /\
-  map content (s_rows (x_efc (run_builders zskip c sparse adr0 rnz0 ov0 rq))) = expected_rows (r_efc rq) /\
-  same_result (run_builders zskip c sparse adr0 rnz0 ov0 rq) (run_builders zskip c' sparse adr0' rnz0' ov0' rq').
-Proof.
-  intros c c' a r a' r' ov0 ov0' rq rq' Hz Hz' (U1 & U2 & U3 & U4) (P1 & P2 & P3 & P4)
-         (C1 & C2 & C3 & C4) (C1' & C2' & C3' & C4') Hm Hm' H H'.
-  apply overflow_any_false in H. apply overflow_any_false in H'.
-  destruct H as (O1 & O2 & O3 & O4 & O5). destruct H' as (O1' & O2' & O3' & O4' & O5').
-  unfold dropped, same_result. rbsimpl.
-  rewrite !(run_collision_runs _ _ _ Hz) in *. rewrite !(run_collision_runs _ _ _ Hz') in *.
-  pose proof (uses_wf _ _ _ Hrbs U1) as W1. pose proof (uses_wf _ _ _ Hsbs U2) as W2.
-  pose proof (uses_wf _ _ _ Hsbs U3) as W3. pose proof (uses_wf _ _ _ Hsbs U4) as W4.
-  assert (E1 : overflowed (njmax c) (njmax_nnz c) sparse (run_tasks (njmax c) (njmax_nnz c) sparse (r_efc rq) (init_st a r)) = false)
-    by (unfold overflowed; rewrite O1, O2; auto).
-  assert (E1' : overflowed (njmax c') (njmax_nnz c') sparse (run_tasks (njmax c') (njmax_nnz c') sparse (r_efc rq') (init_st a' r')) = false)
-    by (unfold overflowed; rewrite O1', O2'; auto).
-  destruct (G_exact _ _ _ _ _ _ W1 C1 C2 Hm E1) as (D1 & R1 & _).
-  assert (Hd0 : forall cap ts, wf_tasks false ts -> 0 <= cap ->
-            ov_nefc cap (run_tasks cap 0 false ts (init_st [] [])) = false ->
-            dropped_any (run_tasks cap 0 false ts (init_st [] [])) = false).
-  { intros cap ts Hw Hc Ho.
-    pose proof (G_exact cap 0 false ts [] [] Hw Hc (Z.le_refl 0) (meta_dense cap)) as X.
-    rewrite overflowed_dense in X. apply X in Ho. cbv zeta in Ho. tauto. }
-  pose proof (Hd0 _ _ W2 C3 O3) as D2. pose proof (Hd0 _ _ W3 C3 O4) as D3. pose proof (Hd0 _ _ W4 C4 O5) as D4.
-  split; [rewrite D1, D2, D3, D4; auto|]. split; [exact R1|].
-  unfold same_rows, same_counters.
-  split; [|split; [|split]].
-  - pose proof (G_ample _ _ _ _ sparse _ _ a r a' r' W1 C1 C2 C1' C2' Hm Hm' P1 E1 E1') as G. cbv zeta in G. tauto.
-  - pose proof (G_ample (naconmax c) 0 (naconmax c') 0 false _ _ [] [] [] [] W2 C3 (Z.le_refl 0) C3' (Z.le_refl 0) (meta_dense _) (meta_dense _) P2) as G.
-    rewrite !overflowed_dense in G. specialize (G O3 O3'). cbv zeta in G. tauto.
-  - pose proof (G_ample (naconmax c) 0 (naconmax c') 0 false _ _ [] [] [] [] W3 C3 (Z.le_refl 0) C3' (Z.le_refl 0) (meta_dense _) (meta_dense _) P3) as G.
-    rewrite !overflowed_dense in G. specialize (G O4 O4'). cbv zeta in G. tauto.
-  - pose proof (G_ample (nvmax c) 0 (nvmax c') 0 false _ _ [] [] [] [] W4 C4 (Z.le_refl 0) C4' (Z.le_refl 0) (meta_dense _) (meta_dense _) P4) as G.
-    rewrite !overflowed_dense in G. specialize (G O5 O5'). cbv zeta in G. tauto.
-Qed.
-
-(* the schedule cannot change whether a run overflows, nor (when it does not) what it produces *)
-Theorem alloc_sched : forall c adr0 rnz0 adr0' rnz0' ov0 rq rq',
-  collision_runs zskip c -> requests_use rbs sbs rq -> is_schedule rq rq' -> caps_nonneg c ->
-  meta_ok (njmax c) sparse adr0 rnz0 -> meta_ok (njmax c) sparse adr0' rnz0' ->
-  overflow_any (run_builders zskip c sparse adr0 rnz0 ov0 rq) = false ->
-  overflow_any (run_builders zskip c sparse adr0' rnz0' ov0 rq') = false /\
-  x_word (run_builders zskip c sparse adr0' rnz0' ov0 rq') = x_word (run_builders zskip c sparse adr0 rnz0 ov0 rq) /\
-  same_result (run_builders zskip c sparse adr0 rnz0 ov0 rq) (run_builders zskip c sparse adr0' rnz0' ov0 rq').
-Proof.
-  intros c a r a' r' ov0 rq rq' Hz U S C Hm Hm' H.
-  assert (H' : overflow_any (run_builders zskip c sparse a' r' ov0 rq') = false).
-  { destruct U as (U1 & U2 & U3 & U4). destruct S as (P1 & P2 & P3 & P4). destruct C as (C1 & C2 & C3 & C4).
-    apply overflow_any_false in H. destruct H as (O1 & O2 & O3 & O4 & O5). unfold overflow_any. rbsimpl.
-    rewrite !(run_collision_runs _ _ _ Hz) in *.
-    pose proof (G_sched (njmax c) (njmax_nnz c) sparse _ _ a r a' r' (uses_wf _ _ _ Hrbs U1) C1 C2 Hm Hm' P1) as G1.
-    unfold overflowed in G1. rewrite O1, O2 in G1. specialize (G1 eq_refl). apply orb_false_elim in G1. destruct G1 as [-> ->].
-    pose proof (G_sched (naconmax c) 0 false _ _ [] [] [] [] (uses_wf _ _ _ Hsbs U2) C3 (Z.le_refl 0) (meta_dense _) (meta_dense _) P2) as G2.
-    rewrite !overflowed_dense in G2. rewrite (G2 O3).
-    pose proof (G_sched (naconmax c) 0 false _ _ [] [] [] [] (uses_wf _ _ _ Hsbs U3) C3 (Z.le_refl 0) (meta_dense _) (meta_dense _) P3) as G3.
-    rewrite !overflowed_dense in G3. rewrite (G3 O4).
-    pose proof (G_sched (nvmax c) 0 false _ _ [] [] [] [] (uses_wf _ _ _ Hsbs U4) C4 (Z.le_refl 0) (meta_dense _) (meta_dense _) P4) as G4.
-    rewrite !overflowed_dense in G4. rewrite (G4 O5). reflexivity. }
-  split; [exact H'|]. split.
-  - pose proof (overflow_any_false _ H) as (A1 & A2 & A3 & A4 & A5).
-    pose proof (overflow_any_false _ H') as (B1 & B2 & B3 & B4 & B5).
-    rewrite !rb_word, A1, A2, A3, A4, A5, B1, B2, B3, B4, B5. reflexivity.
-  - destruct (no_overflow_same_as_ample c c a r a' r' ov0 ov0 rq rq' Hz Hz U S C C Hm Hm' H H') as (_ & _ & R). exact R.
-Qed.
-
-End Whole.
-
-(* every index written is below its capacity, for all capacities (0 and negative included) *)
-Theorem alloc_in_bounds : forall bs zskip c sparse adr0 rnz0 ov0 rq,
-  safe_builders bs = true -> requests_use bs bs rq ->
-  let r := run_builders zskip c sparse adr0 rnz0 ov0 rq in
-  bounds_ok (njmax c) (njmax_nnz c) (x_efc r) /\
-  bounds_ok (naconmax c) 0 (x_bp r) /\ bounds_ok (naconmax c) 0 (x_np r) /\ bounds_ok (nvmax c) 0 (x_dof r).
-Proof.
-  intros bs zskip c sparse a r ov0 rq Hs (U1 & U2 & U3 & U4). cbv zeta.
-  rewrite rb_efc, rb_bp, rb_np, rb_dof. unfold run_collision.
-  split; [apply G_bounds; eapply uses_safe; eauto|].
-  assert (Hskip : forall cap qs, bounds_ok cap 0 (skip_all qs (init_st [] []))).
-  { intros. unfold bounds_ok, skip_all, init_st; simpl. repeat split; constructor. }
-  split; [|split].
-  - destruct (zskip && (naconmax c =? 0)); [apply Hskip|apply G_bounds; eapply uses_safe; eauto].
-  - destruct (zskip && (naconmax c =? 0)); [apply Hskip|apply G_bounds; eapply uses_safe; eauto].
-  - apply G_bounds; eapply uses_safe; eauto.
-Qed.
-
 Lemma word_nonzero r ov0 o1 o2 o3 o4 o5 :
   r = Z.lor ov0 (bitz o1 1 + bitz o2 2 + bitz o3 4 + bitz o4 8 + bitz o5 128) ->
   o1 || o2 || o3 || o4 || o5 = true -> r <> 0.
@@ -1143,9 +1013,7 @@ Proof.
   destruct o1, o2, o3, o4, o5; simpl in *; try discriminate; lia.
 Qed.
 
-Lemma overflow_word_nonzero zskip c sparse a r ov0 rq :
-  overflow_any (run_builders zskip c sparse a r ov0 rq) = true -> x_word (run_builders zskip c sparse a r ov0 rq) <> 0.
-Proof. intros H. eapply word_nonzero; [apply rb_word|exact H]. Qed.
+
 
 (* ------------------------------ part 9 ------------------------------ *)
 Local Open Scope string_scope.
@@ -1174,8 +1042,8 @@ Definition silent (r : result) : Prop := dropped r = true /\ overflow_any r = fa
 (* F1: one connect constraint, njmax = 3: the block fits exactly, is dropped, nefc = njmax *)
 Theorem never_silent_refuted_fit :
   exists b c rq, safe_builder b = true /\ wf_fit b = false /\ requests_use [b] [] rq /\
-    silent (run_builders false c false [] [] 0 rq) /\
-    s_n (x_efc (run_builders false c false [] [] 0 rq)) = njmax c.
+    silent (run_builders nofix false c false [] [] 0 rq) /\
+    s_n (x_efc (run_builders nofix false c false [] [] 0 rq)) = njmax c.
 Proof.
   exists connect_like, (mkCaps 3 0 0 0), (mkReqs [mkT connect_like [mkQ 0 0 0 0 0]] [] [] []).
   split; [reflexivity|]. split; [reflexivity|]. split.
@@ -1184,7 +1052,7 @@ Proof.
 Qed.
 
 Theorem never_silent_refuted_fit_weld :
-  exists c rq, requests_use [weld_like] [] rq /\ silent (run_builders false c false [] [] 0 rq).
+  exists c rq, requests_use [weld_like] [] rq /\ silent (run_builders nofix false c false [] [] 0 rq).
 Proof.
   exists (mkCaps 6 0 0 0), (mkReqs [mkT weld_like [mkQ 0 0 0 0 0]] [] [] []). split.
   - unfold requests_use, uses; simpl. repeat split; repeat constructor; simpl; lia.
@@ -1196,8 +1064,8 @@ Qed.
    stale rowadr 0 + rownnz 2 <= 3 *)
 Theorem never_silent_refuted_nnz :
   exists b c rq, safe_builder b = true /\ wf_fit b = true /\ wf_nnz b = false /\ requests_use [b] [] rq /\
-    silent (run_builders false c true [0;0;0] [0;0;0] 0 rq) /\
-    s_zdrop (x_efc (run_builders false c true [0;0;0] [0;0;0] 0 rq)) <> [].
+    silent (run_builders nofix false c true [0;0;0] [0;0;0] 0 rq) /\
+    s_zdrop (x_efc (run_builders nofix false c true [0;0;0] [0;0;0] 0 rq)) <> [].
 Proof.
   exists joint_like, (mkCaps 3 3 0 0),
          (mkReqs [mkT joint_like [mkQ 0 0 0 2 2]; mkT joint_like [mkQ 0 1 0 2 2]] [] [] []).
@@ -1210,7 +1078,7 @@ Qed.
    njmax_nnz = 71 < 72 *)
 Theorem never_silent_refuted_nnz_contact :
   exists c rq adr0, requests_use [contact_like] [] rq /\ List.length adr0 = 64%nat /\
-    silent (run_builders false c true adr0 adr0 0 rq).
+    silent (run_builders nofix false c true adr0 adr0 0 rq).
 Proof.
   exists (mkCaps 64 71 0 0),
          (mkReqs [mkT contact_like [mkQ 6 0 4 6 6]; mkT contact_like [mkQ 6 1 4 6 6]; mkT contact_like [mkQ 6 2 4 6 6]] [] [] []),
@@ -1222,7 +1090,7 @@ Qed.
 
 (* storing the metadata first is not enough if the stored rownnz is the actual count *)
 Theorem never_silent_refuted_nnz_inexact :
-  exists c rq, requests_use [inexact_like] [] rq /\ silent (run_builders false c true [0;0] [0;0] 0 rq).
+  exists c rq, requests_use [inexact_like] [] rq /\ silent (run_builders nofix false c true [0;0] [0;0] 0 rq).
 Proof.
   exists (mkCaps 2 3 0 0), (mkReqs [mkT inexact_like [mkQ 0 0 0 2 2]; mkT inexact_like [mkQ 0 1 0 2 1]] [] [] []). split.
   - unfold requests_use, uses; simpl. repeat split; repeat constructor; simpl; lia.
@@ -1232,7 +1100,7 @@ Qed.
 (* collision() returns before any allocation when naconmax = 0 *)
 Theorem never_silent_refuted_nacon0 :
   exists c rq, requests_use [] [slot_like] rq /\ wf_builders false [slot_like] = true /\
-    silent (run_builders true c false [] [] 0 rq).
+    silent (run_builders nofix true c false [] [] 0 rq).
 Proof.
   exists (mkCaps 8 0 0 4), (mkReqs [] [mkT slot_like [mkQ 0 0 0 0 0]] [mkT slot_like [mkQ 0 0 0 0 0]] []).
   split; [|split; [reflexivity|]].
@@ -1275,8 +1143,724 @@ Proof. split; reflexivity. Qed.
 (* with well-formed builders the exact fit is written, and one row less is flagged *)
 Example fixed_exact_fit :
   let rq := mkReqs [mkT connect_fixed [mkQ 0 0 0 2 2]] [] [] [] in
-  dropped (run_builders false (mkCaps 3 6 0 0) true [0;0;0] [0;0;0] 0 rq) = false /\
-  overflow_any (run_builders false (mkCaps 3 6 0 0) true [0;0;0] [0;0;0] 0 rq) = false /\
-  x_word (run_builders false (mkCaps 2 6 0 0) true [0;0] [0;0] 0 rq) = 1 /\
-  x_word (run_builders false (mkCaps 3 5 0 0) true [0;0;0] [0;0;0] 0 rq) = 2.
+  dropped (run_builders nofix false (mkCaps 3 6 0 0) true [0;0;0] [0;0;0] 0 rq) = false /\
+  overflow_any (run_builders nofix false (mkCaps 3 6 0 0) true [0;0;0] [0;0;0] 0 rq) = false /\
+  x_word (run_builders nofix false (mkCaps 2 6 0 0) true [0;0] [0;0] 0 rq) = 1 /\
+  x_word (run_builders nofix false (mkCaps 3 5 0 0) true [0;0;0] [0;0;0] 0 rq) = 2.
+Proof. vm_compute. auto. Qed.
+
+(* ------------------------------ part 10: repairs of the njmax_nnz class ------------------------------ *)
+Definition wfb2 (sparse : bool) (b : builder) : bool := wf_fit b && (negb sparse || nnz_exact b).
+
+Lemma nnz_dropped_iff2 b x capz :
+  nnz_exact b = true -> cmpb (b_ncmp b) x (capz + b_noff b) = (x >? capz) /\ b_has_nnz b = true.
+Proof. unfold nnz_exact. destruct (b_ncmp b); unfold cmpb; lia. Qed.
+
+Lemma wf_nnz_exact b : wf_nnz b = true -> nnz_exact b = true.
+Proof. unfold wf_nnz, nnz_exact. destruct (b_ncmp b); lia. Qed.
+
+Lemma rdrop_pos_nofit cap capz sparse b q e r :
+  wf_fit b = true -> 0 < nrows b q -> 0 < e_rdrop (alloc_effect cap capz sparse b q e r) -> e + nrows b q > cap.
+Proof.
+  intros Hf Hk. unfold alloc_effect. set (k := nrows b q) in *.
+  destruct (b_perrow b) eqn:Hp.
+  - destruct (perrow_kept b e cap k Hp Hf) as [Hkept _]. simpl negb. cbv iota. simpl andb. rewrite Hkept.
+    pose proof (zrange_length (Z.min k (cap - e))) as L.
+    destruct (sparse && b_has_nnz b); [destruct (cmpb (b_ncmp b) _ _)|]; cbn [e_rdrop]; rewrite L; lia.
+  - destruct (block_dropped_iff b e cap Hp Hf) as [Hd Hpos].
+    assert (Hkr : k = b_rows b) by (unfold k, nrows; destruct (b_rows b =? 0) eqn:E; lia).
+    simpl negb. rewrite Hd. rewrite <- Hkr.
+    destruct (e + k >? cap) eqn:E; [lia|]. simpl andb. cbv iota.
+    pose proof (zrange_length k) as L.
+    destruct (sparse && b_has_nnz b); [destruct (cmpb (b_ncmp b) _ _)|]; cbn [e_rdrop]; rewrite L; lia.
+Qed.
+
+Section Inv2.
+Variables (cap capz : Z) (sparse : bool).
+
+Definition inv2 (s : st) : Prop :=
+  0 <= s_n s /\ 0 <= s_z s /\
+  (s_rdrop s <> [] -> s_n s > cap) /\
+  (s_zdrop s <> [] -> sparse = true /\ s_z s > capz) /\
+  (s_skip s <> [] -> s_rdrop s <> [] \/ s_zdrop s <> []).
+
+Lemma step_inv2 b q s :
+  wfb2 sparse b = true -> wf_req b q -> inv2 s ->
+  inv2 (step cap capz sparse b q s) /\
+  (e_cont (alloc_effect cap capz sparse b q (s_n s) (s_z s)) = false ->
+     s_rdrop (step cap capz sparse b q s) <> [] \/ s_zdrop (step cap capz sparse b q s) <> []).
+Proof.
+  intros Hwf [Hk Hp] (Hn & Hz & Hrd & Hzd & Hsk).
+  unfold wfb2 in Hwf. apply andb_prop in Hwf. destruct Hwf as [Hf Hx].
+  pose proof (effect_general cap capz sparse b q (s_n s) (s_z s) ltac:(lia) Hp) as G.
+  cbv zeta in G. destruct G as (Grows & Gnnz & Grd & Gzd & Gcont & _).
+  pose proof (rdrop_pos_nofit cap capz sparse b q (s_n s) (s_z s) Hf Hk) as Gr.
+  unfold step. set (ef := alloc_effect cap capz sparse b q (s_n s) (s_z s)) in *.
+  assert (Gz : e_zdrop ef = true -> sparse = true /\ s_z s + e_nnz ef > capz).
+  { intros Z. destruct (Gzd Z) as (S & N & C). split; auto. rewrite S in Hx. simpl in Hx.
+    destruct (nnz_dropped_iff2 b (s_z s + nrows b q * q_pernnz q) capz Hx) as [E _]. rewrite E in C. lia. }
+  unfold apply_effect. split.
+  - unfold inv2; simpl. split; [lia|]. split; [lia|]. split; [|split].
+    + destruct (0 <? e_rdrop ef) eqn:E.
+      * intros _. assert (0 < e_rdrop ef) by lia. apply Gr in H. lia.
+      * intros H. apply Hrd in H. lia.
+    + destruct (e_zdrop ef) eqn:Z.
+      * intros _. destruct (Gz eq_refl). split; auto.
+      * intros H. apply Hzd in H. destruct H. split; auto. lia.
+    + intros H. apply Hsk in H. destruct H as [H|H].
+      * left. destruct (0 <? e_rdrop ef); auto. apply app_neq_nil_l; auto.
+      * right. destruct (e_zdrop ef); auto. apply app_neq_nil_l; auto.
+  - intros C. simpl. destruct (Gcont C) as [Z|[R|K]].
+    + right. rewrite Z. apply app_neq_nil_r. discriminate.
+    + left. replace (0 <? e_rdrop ef) with true by lia. apply app_neq_nil_r. discriminate.
+    + lia.
+Qed.
+
+Lemma run_reqs_inv2 b : forall qs s,
+  wfb2 sparse b = true -> Forall (wf_req b) qs -> inv2 s -> inv2 (run_reqs cap capz sparse b qs s).
+Proof.
+  induction qs as [|q qs IH]; intros s Hwf Hq Hi; simpl; auto.
+  inversion Hq; subst.
+  destruct (step_inv2 b q s Hwf H1 Hi) as [Hi' Hc]. fold (step cap capz sparse b q s).
+  destruct (e_cont _) eqn:C.
+  - apply IH; auto.
+  - specialize (Hc eq_refl). destruct Hi' as (A & B & C1 & D & E).
+    unfold inv2, skip_all; simpl. repeat split; auto; try (apply D; auto).
+Qed.
+
+Definition wf_tasks2 (ts : list task) : Prop := Forall (fun t => wfb2 sparse (t_b t) = true /\ wf_task t) ts.
+
+Lemma run_tasks_inv2 : forall ts s, wf_tasks2 ts -> inv2 s -> inv2 (run_tasks cap capz sparse ts s).
+Proof.
+  unfold run_tasks. induction ts as [|t ts IH]; intros s Hw Hi; simpl; auto.
+  inversion Hw; subst. destruct H1. apply IH; auto. apply run_reqs_inv2; auto.
+Qed.
+
+Lemma init_inv2 a r : inv2 (init_st a r).
+Proof. unfold inv2, init_st; simpl. repeat split; try lia; congruence. Qed.
+
+(* with the direct flag: a dropped request sets NEFC or the counter exceeds njmax_nnz *)
+Lemma G_never_silent_flag ts a r :
+  wf_tasks2 ts -> let s := run_tasks cap capz sparse ts (init_st a r) in
+  dropped_any s = true -> ov_nefc cap s || (sparse && (s_z s >? capz)) = true.
+Proof.
+  intros Hw s Hd. pose proof (run_tasks_inv2 ts _ Hw (init_inv2 a r)) as (Hn & Hz & Hrd & Hzd & Hsk).
+  fold s in Hn, Hz, Hrd, Hzd, Hsk. apply dropped_any_true in Hd.
+  assert (Hd' : s_rdrop s <> [] \/ s_zdrop s <> []) by (destruct Hd as [|[|]]; auto).
+  unfold ov_nefc. destruct Hd' as [H|H].
+  - apply Hrd in H. replace (s_n s >? cap) with true by lia. reflexivity.
+  - apply Hzd in H. destruct H as [S H]. rewrite S. replace (s_z s >? capz) with true by lia. apply orb_true_r.
+Qed.
+
+End Inv2.
+
+(* ------------------------------ part 11 ------------------------------ *)
+(* ---- the stored metadata do not influence counters, rows, drops ---- *)
+Definition fixmeta (b : builder) : builder :=
+  mkB (b_name b) (b_counter b) (b_cap b) (b_tcounter b) (b_rows b) (b_perrow b) (b_cmp b) (b_off b)
+      (b_loop b) (b_deferred b) (b_has_nnz b) (b_ncmp b) (b_noff b) true true true.
+Definition fixt (t : task) : task := mkT (fixmeta (t_b t)) (t_reqs t).
+
+Definition core_eq (s s' : st) : Prop :=
+  s_n s = s_n s' /\ s_ne s = s_ne s' /\ s_nf s = s_nf s' /\ s_nl s = s_nl s' /\ s_z s = s_z s' /\
+  s_rows s = s_rows s' /\ s_slots s = s_slots s' /\
+  s_rdrop s = s_rdrop s' /\ s_zdrop s = s_zdrop s' /\ s_skip s = s_skip s'.
+
+Lemma effect_core cap capz sparse b q e r :
+  let ef := alloc_effect cap capz sparse b q e r in
+  let ef' := alloc_effect cap capz sparse (fixmeta b) q e r in
+  e_rows ef = e_rows ef' /\ e_nnz ef = e_nnz ef' /\ e_w ef = e_w ef' /\ e_slots ef = e_slots ef' /\
+  e_rdrop ef = e_rdrop ef' /\ e_zdrop ef = e_zdrop ef' /\ e_cont ef = e_cont ef'.
+Proof.
+  cbv zeta. unfold alloc_effect.
+  change (nrows (fixmeta b) q) with (nrows b q). cbn [fixmeta b_perrow b_cmp b_off b_has_nnz b_ncmp b_noff b_deferred b_adr_before b_rnz_before b_rnz_exact].
+  destruct (negb (b_perrow b) && cmpb (b_cmp b) (if b_perrow b then e + 0 else e) (cap + b_off b)).
+  - repeat split.
+  - destruct (sparse && b_has_nnz b).
+    + destruct (cmpb (b_ncmp b) (r + nrows b q * q_pernnz q) (capz + b_noff b)); repeat split.
+    + repeat split.
+Qed.
+
+Section Core.
+Variables (cap capz : Z) (sparse : bool).
+
+Lemma step_core b q s s' :
+  core_eq s s' ->
+  core_eq (step cap capz sparse b q s) (step cap capz sparse (fixmeta b) q s') /\
+  e_cont (alloc_effect cap capz sparse b q (s_n s) (s_z s)) =
+  e_cont (alloc_effect cap capz sparse (fixmeta b) q (s_n s') (s_z s')).
+Proof.
+  intros (A1 & A2 & A3 & A4 & A5 & A6 & A7 & A8 & A9 & A10).
+  unfold step. rewrite <- A1, <- A5.
+  pose proof (effect_core cap capz sparse b q (s_n s) (s_z s)) as E. cbv zeta in E.
+  destruct E as (E1 & E2 & E3 & E4 & E5 & E6 & E7).
+  split; [|exact E7].
+  unfold core_eq, apply_effect; simpl. rewrite <- E1, <- E2, <- E3, <- E4, <- E5, <- E6.
+  rewrite A1, A2, A3, A4, A5, A6, A7, A8, A9, A10. repeat split.
+Qed.
+
+Lemma run_reqs_core b : forall qs s s', core_eq s s' ->
+  core_eq (run_reqs cap capz sparse b qs s) (run_reqs cap capz sparse (fixmeta b) qs s').
+Proof.
+  induction qs as [|q qs IH]; intros s s' H; simpl; auto.
+  destruct (step_core b q s s' H) as [Hc He]. fold (step cap capz sparse b q s). fold (step cap capz sparse (fixmeta b) q s').
+  rewrite <- He. destruct (e_cont _).
+  - apply IH; auto.
+  - destruct Hc as (A1 & A2 & A3 & A4 & A5 & A6 & A7 & A8 & A9 & A10).
+    unfold core_eq, skip_all; cbn [s_n s_ne s_nf s_nl s_z s_rows s_slots s_rdrop s_zdrop s_skip s_adr s_rnz s_midx]. rewrite A10. repeat split; auto.
+Qed.
+
+Lemma run_tasks_core : forall ts s s', core_eq s s' ->
+  core_eq (run_tasks cap capz sparse ts s) (run_tasks cap capz sparse (map fixt ts) s').
+Proof.
+  unfold run_tasks. induction ts as [|t ts IH]; intros s s' H; simpl; auto.
+  apply IH. unfold run_task. simpl. apply run_reqs_core; auto.
+Qed.
+
+End Core.
+
+Lemma core_init a r a' r' : core_eq (init_st a r) (init_st a' r').
+Proof. unfold core_eq, init_st; simpl. repeat split. Qed.
+
+Lemma wfb2_fixmeta sparse b : wfb2 sparse b = true -> wf_builder sparse (fixmeta b) = true.
+Proof.
+  unfold wfb2, wf_builder, wf_nnz, nnz_exact, wf_fit. cbn [fixmeta b_perrow b_rows b_loop b_cmp b_off b_has_nnz b_adr_before b_rnz_before b_rnz_exact b_ncmp b_noff].
+  rewrite !andb_true_r. auto.
+Qed.
+
+Lemma fixt_totals ts :
+  total_rows (map fixt ts) = total_rows ts /\ total_nnz (map fixt ts) = total_nnz ts /\
+  (forall c, tcount c (map fixt ts) = tcount c ts) /\ expected_rows (map fixt ts) = expected_rows ts.
+Proof.
+  unfold total_rows, total_nnz, tcount, expected_rows.
+  induction ts as [|t ts IH]; simpl; [repeat split|].
+  destruct IH as (A & B & C & D). change (task_nrows (fixt t)) with (task_nrows t).
+  change (task_nnz (fixt t)) with (task_nnz t). change (task_rows (fixt t)) with (task_rows t).
+  rewrite A, B, D. repeat split. intros c. rewrite C. reflexivity.
+Qed.
+
+Lemma wf_tasks2_fixt sparse ts : wf_tasks2 sparse ts -> wf_tasks sparse (map fixt ts).
+Proof.
+  unfold wf_tasks2, wf_tasks. intros H. apply Forall_map. eapply Forall_impl; [|exact H].
+  intros t [A B]. split; [apply wfb2_fixmeta; auto|exact B].
+Qed.
+
+Lemma core_nodrop s s' : core_eq s s' -> nodrop s' -> nodrop s.
+Proof. intros (_ & _ & _ & _ & _ & _ & _ & A & B & C) (X & Y & Z). unfold nodrop. rewrite A, B, C. auto. Qed.
+Lemma core_sym s s' : core_eq s s' -> core_eq s' s.
+Proof. unfold core_eq. intuition. Qed.
+
+Definition zeros (cap : Z) : list Z := map (fun _ => 0) (zrange cap).
+Lemma zeros_meta cap sparse : 0 <= cap -> meta_ok cap sparse (zeros cap) (zeros cap).
+Proof.
+  intros H _. unfold zeros. rewrite map_length. pose proof (zrange_length cap). lia.
+Qed.
+
+Section PathB.
+Variables (cap capz : Z) (sparse : bool).
+
+Definition ovB (s : st) : bool := ov_nefc cap s || (sparse && (s_z s >? capz)).
+
+(* no NEFC bit and the counter within njmax_nnz: exactly the requested rows *)
+Lemma GB_exact ts a r :
+  wf_tasks2 sparse ts -> 0 <= cap -> 0 <= capz ->
+  let s := run_tasks cap capz sparse ts (init_st a r) in
+  ovB s = false ->
+  fits cap capz sparse ts /\
+  dropped_any s = false /\
+  map content (s_rows s) = expected_rows ts /\
+  map w_efcid (s_rows s) = zrange (total_rows ts) /\
+  forallb w_complete (s_rows s) = true /\
+  s_n s = total_rows ts /\ s_z s = znz sparse (total_nnz ts) /\
+  s_ne s = tcount 0 ts /\ s_nf s = tcount 1 ts /\ s_nl s = tcount 2 ts.
+Proof.
+  intros Hw Hc Hcz s Hov.
+  assert (Hnd : nodrop s).
+  { apply nodrop_dropped_any. destruct (dropped_any s) eqn:D; auto.
+    pose proof (G_never_silent_flag cap capz sparse ts a r Hw D). unfold ovB in Hov. fold s in H. congruence. }
+  set (s' := run_tasks cap capz sparse (map fixt ts) (init_st (zeros cap) (zeros cap))).
+  assert (Hce : core_eq s s') by (apply run_tasks_core, core_init).
+  pose proof (wf_tasks2_fixt sparse ts Hw) as Hw'.
+  pose proof (zeros_meta cap sparse Hc) as Hm.
+  pose proof (init_inv cap capz sparse _ _ Hm) as Hi0.
+  assert (W0 : within cap capz sparse (init_st (zeros cap) (zeros cap))) by (unfold within, init_st; simpl; split; auto; lia).
+  assert (Hnd' : nodrop s') by (apply (core_nodrop s' s); [apply core_sym; auto|auto]).
+  destruct (run_tasks_nodrop cap capz sparse _ _ Hw' Hi0 W0 Hnd') as (_ & F1 & F2 & A1 & A2 & A3 & A4 & A5 & A6).
+  fold s' in A1, A2, A3, A4, A5, A6.
+  destruct (fixt_totals ts) as (T1 & T2 & T3 & T4).
+  destruct Hce as (C1 & C2 & C3 & C4 & C5 & C6 & _).
+  unfold init_st in *; simpl in *. rewrite T1 in *. rewrite T2 in *. rewrite !T3 in *.
+  split; [split; [lia|intros S; specialize (F2 S); lia]|].
+  split; [apply nodrop_dropped_any; exact Hnd|].
+  rewrite C6, C1, C5, C2, C3, C4, A3, A1, A2, A4, A5, A6. simpl.
+  split; [rewrite place_tasks_content; exact T4|].
+  split; [rewrite (place_tasks_efcid sparse) by (auto; lia); rewrite T1; rewrite map_ext with (g := fun i => i) by (intros; lia); apply map_id|].
+  split; [apply place_tasks_complete|]. repeat split; lia.
+Qed.
+
+Lemma GB_fits ts a r :
+  wf_tasks2 sparse ts -> 0 <= cap -> 0 <= capz -> fits cap capz sparse ts ->
+  ovB (run_tasks cap capz sparse ts (init_st a r)) = false.
+Proof.
+  intros Hw Hc Hcz [F1 F2].
+  set (s := run_tasks cap capz sparse ts (init_st a r)).
+  set (s' := run_tasks cap capz sparse (map fixt ts) (init_st (zeros cap) (zeros cap))).
+  assert (Hce : core_eq s s') by (apply run_tasks_core, core_init).
+  pose proof (wf_tasks2_fixt sparse ts Hw) as Hw'.
+  destruct (fixt_totals ts) as (T1 & T2 & T3 & T4).
+  assert (Hnd' : nodrop s').
+  { apply run_tasks_fits; auto; [apply nodrop_init| |]; unfold init_st; simpl; rewrite ?T1, ?T2; auto; lia. }
+  pose proof (zeros_meta cap sparse Hc) as Hm.
+  pose proof (init_inv cap capz sparse _ _ Hm) as Hi0.
+  assert (W0 : within cap capz sparse (init_st (zeros cap) (zeros cap))) by (unfold within, init_st; simpl; split; auto; lia).
+  destruct (run_tasks_nodrop cap capz sparse _ _ Hw' Hi0 W0 Hnd') as (_ & _ & _ & A1 & A2 & _).
+  fold s' in A1, A2. destruct Hce as (C1 & _ & _ & _ & C5 & _).
+  unfold init_st in *; simpl in *. rewrite T1 in *. rewrite T2 in *.
+  unfold ovB, ov_nefc. rewrite C1, C5, A1, A2. unfold znz.
+  replace (total_rows ts >? cap) with false by lia. simpl.
+  destruct sparse; simpl; auto. specialize (F2 eq_refl). lia.
+Qed.
+
+End PathB.
+
+(* ------------------------------ part 12 ------------------------------ *)
+Definition act_ok (q : req) : Prop := q_actnnz q <= q_pernnz q.
+Definition act_tasks (ts : list task) : Prop := Forall (fun t => Forall act_ok (t_reqs t)) ts.
+
+Lemma effect_fit2 cap capz sparse b q e r :
+  wfb2 sparse b = true -> 0 < nrows b q -> e + nrows b q <= cap ->
+  (sparse = true -> r + nrows b q * q_pernnz q <= capz) ->
+  let k := nrows b q in let p := q_pernnz q in
+  let stored := if b_rnz_exact b then p else q_actnnz q in
+  alloc_effect cap capz sparse b q e r =
+    if sparse
+    then mkE k (k * p) (full_rows e q k true) (full_adr e r p k) (map (fun i => (e + i, stored)) (zrange k)) [(r, k * p)] 0 false true
+    else mkE k 0 (full_rows e q k true) [] [] [] 0 false true.
+Proof.
+  intros Hwf Hk Hfit Hz k p stored. unfold wfb2 in Hwf. apply andb_prop in Hwf. destruct Hwf as [Hf Hn].
+  unfold alloc_effect. fold k. fold p. fold stored.
+  assert (Hl : k - Z.of_nat (List.length (zrange k)) = 0) by (rewrite zrange_length; lia).
+  assert (Hkept : (if b_perrow b then filter (fun i => negb (cmpb (b_cmp b) (e + i) (cap + b_off b))) (zrange k) else zrange k) = zrange k).
+  { destruct (b_perrow b) eqn:Hp; auto. destruct (perrow_kept b e cap k Hp Hf) as [H _]. rewrite H. f_equal. lia. }
+  assert (Hnd : negb (b_perrow b) && cmpb (b_cmp b) (if b_perrow b then e + 0 else e) (cap + b_off b) = false).
+  { destruct (b_perrow b) eqn:Hp; auto. destruct (block_dropped_iff b e cap Hp Hf) as [Hd Hpos].
+    assert (Hkr : k = b_rows b) by (unfold k, nrows; destruct (b_rows b =? 0) eqn:E; lia).
+    simpl. rewrite Hd, <- Hkr. lia. }
+  rewrite Hnd. destruct (b_perrow b) eqn:Hp.
+  - rewrite Hkept, Hl. destruct sparse; simpl in Hn.
+    + destruct (nnz_dropped_iff2 b (r + k * p) capz Hn) as [E H]. rewrite H. simpl andb. cbv iota. rewrite E.
+      replace (r + k * p >? capz) with false by (specialize (Hz eq_refl); lia). reflexivity.
+    + reflexivity.
+  - rewrite Hl. destruct sparse; simpl in Hn.
+    + destruct (nnz_dropped_iff2 b (r + k * p) capz Hn) as [E H]. rewrite H. simpl andb. cbv iota. rewrite E.
+      replace (r + k * p >? capz) with false by (specialize (Hz eq_refl); lia). reflexivity.
+    + reflexivity.
+Qed.
+
+Section Probe.
+Variables (cap capz : Z) (sparse : bool).
+
+Definition inv3 (s : st) : Prop :=
+  0 <= s_n s /\ 0 <= s_z s /\
+  (sparse = true -> List.length (s_adr s) = Z.to_nat cap /\ List.length (s_rnz s) = Z.to_nat cap) /\
+  (sparse = true -> 0 < s_n s <= cap -> get (s_adr s) (s_n s - 1) + get (s_rnz s) (s_n s - 1) <= s_z s).
+
+Lemma step_inv3 b q s :
+  wfb2 sparse b = true -> wf_req b q -> act_ok q -> inv3 s ->
+  s_n s + nrows b q <= cap -> (sparse = true -> s_z s + nrows b q * q_pernnz q <= capz) ->
+  inv3 (step cap capz sparse b q s) /\
+  e_cont (alloc_effect cap capz sparse b q (s_n s) (s_z s)) = true /\
+  s_n (step cap capz sparse b q s) = s_n s + nrows b q /\
+  s_z (step cap capz sparse b q s) = s_z s + znz sparse (nrows b q * q_pernnz q).
+Proof.
+  intros Hwf [Hk Hp] Ha (Hn & Hz & Hl & Hlast) Hfit Hfz.
+  assert (Hkp : 0 <= nrows b q * q_pernnz q) by (apply Z.mul_nonneg_nonneg; lia).
+  pose proof (effect_fit2 cap capz sparse b q (s_n s) (s_z s) Hwf Hk Hfit Hfz) as E. cbv zeta in E.
+  unfold step, znz. set (k := nrows b q) in *. set (p := q_pernnz q) in *.
+  set (e := s_n s) in *. set (r := s_z s) in *.
+  destruct sparse eqn:Sp; rewrite E; unfold apply_effect, inv3; simpl.
+  - destruct (Hl eq_refl) as [L1 L2]. repeat split; try lia.
+    + rewrite apply_stores_length; auto.
+    + rewrite apply_stores_length; auto.
+    + intros _ _. fold e. fold r. unfold full_adr.
+      rewrite (apply_stores_last (fun i => r + i * p)) by lia.
+      rewrite (apply_stores_last (fun _ => if b_rnz_exact b then p else q_actnnz q)) by lia.
+      unfold act_ok in Ha. fold p in Ha. destruct (b_rnz_exact b); lia.
+  - repeat split; try lia; intros; congruence.
+Qed.
+
+Lemma run_reqs_inv3 b : forall qs s,
+  wfb2 sparse b = true -> Forall (wf_req b) qs -> Forall act_ok qs -> inv3 s ->
+  s_n s + reqs_nrows b qs <= cap -> (sparse = true -> s_z s + reqs_nnz b qs <= capz) ->
+  let s' := run_reqs cap capz sparse b qs s in
+  inv3 s' /\ s_n s' = s_n s + reqs_nrows b qs /\ s_z s' = s_z s + znz sparse (reqs_nnz b qs).
+Proof.
+  induction qs as [|q qs IH]; intros s Hwf Hq Ha Hi Hfit Hfz; simpl.
+  - unfold reqs_nrows, reqs_nnz, znz; simpl. split; [exact Hi|]. split; [lia|]. destruct sparse; lia.
+  - inversion Hq; subst. inversion Ha; subst. destruct (reqs_nonneg b qs H2) as [P1 P2].
+    unfold reqs_nrows, reqs_nnz in *. simpl in *.
+    destruct (step_inv3 b q s Hwf H1 H3 Hi) as (N & C & A1 & A2); [lia| intros S; specialize (Hfz S); lia |].
+    fold (step cap capz sparse b q s). rewrite C.
+    destruct (IH (step cap capz sparse b q s) Hwf H2 H4 N) as (N' & B1 & B2).
+    + rewrite A1. lia.
+    + intros S. specialize (Hfz S). rewrite A2. unfold znz. rewrite S. lia.
+    + split; [exact N'|]. split; [lia|]. rewrite B2, A2. unfold znz. destruct sparse; lia.
+Qed.
+
+Lemma run_tasks_inv3 : forall ts s,
+  wf_tasks2 sparse ts -> act_tasks ts -> inv3 s ->
+  s_n s + total_rows ts <= cap -> (sparse = true -> s_z s + total_nnz ts <= capz) ->
+  inv3 (run_tasks cap capz sparse ts s).
+Proof.
+  unfold run_tasks. induction ts as [|t ts IH]; intros s Hw Ha Hi Hfit Hfz; simpl; auto.
+  inversion Hw; subst. inversion Ha; subst. destruct H1 as [Hb Ht].
+  assert (P : 0 <= total_rows ts /\ 0 <= total_nnz ts).
+  { split; apply zsum_nonneg; apply Forall_map; (eapply Forall_impl; [|exact H2]); intros x [_ Hx]; apply (reqs_nonneg _ _ Hx). }
+  destruct P as [P1 P2].
+  unfold total_rows, total_nnz in *. simpl in *. unfold task_nrows, task_nnz in *.
+  fold (reqs_nrows (t_b t) (t_reqs t)) in *. fold (reqs_nnz (t_b t) (t_reqs t)) in *.
+  destruct (run_reqs_inv3 (t_b t) (t_reqs t) s Hb Ht H3 Hi) as (N & A1 & A2); [lia| intros S; specialize (Hfz S); lia |].
+  unfold run_task. apply IH; auto.
+  - rewrite A1. lia.
+  - intros S. specialize (Hfz S). rewrite A2. unfold znz. rewrite S. lia.
+Qed.
+
+(* when everything fits, _next_time's probe of the last row's stored metadata stays silent,
+   whatever the order in which the builders store them *)
+Lemma probe_fits ts a r :
+  wf_tasks2 sparse ts -> act_tasks ts -> 0 <= cap -> 0 <= capz -> meta_ok cap sparse a r ->
+  fits cap capz sparse ts ->
+  ov_nnz cap capz sparse (run_tasks cap capz sparse ts (init_st a r)) = false.
+Proof.
+  intros Hw Ha Hc Hcz Hm [F1 F2].
+  assert (Hi0 : inv3 (init_st a r)).
+  { unfold inv3, init_st; simpl. repeat split; try lia; try (apply Hm; auto). }
+  assert (Hi : inv3 (run_tasks cap capz sparse ts (init_st a r))).
+  { apply run_tasks_inv3; auto; unfold init_st; simpl; try lia; try (intros S; specialize (F2 S); lia). }
+  pose proof (GB_fits cap capz sparse ts a r Hw Hc Hcz (conj F1 F2)) as Hov.
+  set (s := run_tasks cap capz sparse ts (init_st a r)) in *.
+  destruct Hi as (Hn & Hz & Hl & Hlast). unfold ovB, ov_nefc in Hov. apply orb_false_elim in Hov. destruct Hov as [O1 O2].
+  unfold ov_nnz. rewrite O1. destruct ((s_n s >? 0) && sparse) eqn:G; auto.
+  apply andb_prop in G. destruct G as [G1 G2]. rewrite G2 in O2. simpl in O2.
+  replace (Z.min (s_n s) cap - 1) with (s_n s - 1) by lia.
+  specialize (Hlast G2 ltac:(lia)). lia.
+Qed.
+
+End Probe.
+
+(* ------------------------------ part 13 ------------------------------ *)
+Definition wf_tasks_fx (fx : nnzfix) (sparse : bool) (ts : list task) : Prop :=
+  Forall (fun t => wf_builder_fx fx sparse (t_b t) = true /\ wf_task t /\ Forall act_ok (t_reqs t)) ts.
+Definition overflowed_fx (fx : nnzfix) (cap capz : Z) (sparse : bool) (s : st) : bool :=
+  ov_nefc cap s || ov_nnz_fx fx cap capz sparse s.
+
+Lemma wf_tasks_fx_noflag fx sparse ts : f_flag fx = false -> wf_tasks_fx fx sparse ts -> wf_tasks sparse ts.
+Proof.
+  intros F H. unfold wf_tasks_fx, wf_tasks in *. eapply Forall_impl; [|exact H].
+  intros t (A & B & _). split; auto. unfold wf_builder_fx in A. rewrite F in A. unfold wf_builder.
+  rewrite andb_false_l, orb_false_r in A. exact A.
+Qed.
+
+Lemma wf_tasks_fx_flag fx sparse ts : wf_tasks_fx fx sparse ts -> wf_tasks2 sparse ts /\ act_tasks ts.
+Proof.
+  intros H. unfold wf_tasks_fx, wf_tasks2, act_tasks in *. split; (eapply Forall_impl; [|exact H]); intros t (A & B & C); auto.
+  split; auto. unfold wf_builder_fx, wfb2 in *. apply andb_prop in A. destruct A as [A1 A2]. rewrite A1. simpl.
+  destruct sparse; simpl in *; auto. apply orb_prop in A2. destruct A2 as [A2|A2].
+  - apply wf_nnz_exact; auto.
+  - apply andb_prop in A2. tauto.
+Qed.
+
+Lemma wf_tasks_fx_perm fx sparse ts ts' : Permutation ts ts' -> wf_tasks_fx fx sparse ts -> wf_tasks_fx fx sparse ts'.
+Proof. unfold wf_tasks_fx. intros P H. eapply Permutation_Forall; eauto. Qed.
+
+Lemma prezero_length fx l : List.length (prezero fx l) = List.length l.
+Proof. unfold prezero. destruct (f_prezero fx); auto. apply map_length. Qed.
+Lemma meta_ok_prezero fx cap sparse a r : meta_ok cap sparse a r -> meta_ok cap sparse (prezero fx a) (prezero fx r).
+Proof. unfold meta_ok. intros H S. rewrite !prezero_length. auto. Qed.
+
+Lemma finish_id fx cap capz sparse s : f_clamp fx && sparse && (s_z s >? capz) = false -> finish fx cap capz sparse s = s.
+Proof. unfold finish. intros ->. reflexivity. Qed.
+
+Lemma finish_core fx cap capz sparse s :
+  let s' := finish fx cap capz sparse s in
+  s_n s' = s_n s /\ s_ne s' = s_ne s /\ s_nf s' = s_nf s /\ s_nl s' = s_nl s /\ s_z s' = s_z s /\
+  s_rows s' = s_rows s /\ s_slots s' = s_slots s /\ s_midx s' = s_midx s /\ dropped_any s' = dropped_any s.
+Proof. cbv zeta. unfold finish. destruct (f_clamp fx && sparse && (s_z s >? capz)); simpl; repeat split. Qed.
+
+Section OneFx.
+Variables (fx : nnzfix) (cap capz : Z) (sparse : bool).
+Hypothesis Hfx : fx_ok fx = true.
+Notation run ts a r := (efc_run fx cap capz sparse ts a r).
+Notation ovf := (overflowed_fx fx cap capz sparse).
+
+Lemma noflag_noclamp : f_flag fx = false -> f_clamp fx = false.
+Proof. unfold fx_ok in Hfx. destruct (f_clamp fx), (f_flag fx); simpl in *; congruence. Qed.
+
+Lemma ovf_noflag s : f_flag fx = false -> ovf s = overflowed cap capz sparse s.
+Proof.
+  intros F. pose proof (noflag_noclamp F) as C.
+  unfold overflowed_fx, ov_nnz_fx, nnz_flag_bit, overflowed. rewrite F. simpl.
+  rewrite finish_id by (rewrite C; reflexivity). reflexivity.
+Qed.
+
+Lemma ovf_flag s : f_flag fx = true ->
+  ovB cap capz sparse s = false -> ovf s = ov_nnz cap capz sparse s.
+Proof.
+  intros F H. unfold ovB in H. apply orb_false_elim in H. destruct H as [H1 H2].
+  unfold overflowed_fx, ov_nnz_fx, nnz_flag_bit. rewrite H1, F. simpl. rewrite H2. simpl.
+  rewrite finish_id; auto. rewrite <- andb_assoc, H2. apply andb_false_r.
+Qed.
+
+Lemma ovf_flag_true s : f_flag fx = true -> ovB cap capz sparse s = true -> ovf s = true.
+Proof.
+  intros F H. unfold ovB in H. unfold overflowed_fx, ov_nnz_fx, nnz_flag_bit. rewrite F. simpl.
+  apply orb_prop in H. destruct H as [-> | ->]; simpl; auto. apply orb_true_r.
+Qed.
+
+Theorem GX_never_silent ts a r :
+  wf_tasks_fx fx sparse ts -> meta_ok cap sparse a r ->
+  dropped_any (run ts a r) = true -> ovf (run ts a r) = true.
+Proof.
+  intros Hw Hm Hd. unfold efc_run in *. destruct (f_flag fx) eqn:F.
+  - apply ovf_flag_true; auto. destruct (wf_tasks_fx_flag _ _ _ Hw) as [W2 _].
+    apply (G_never_silent_flag cap capz sparse ts _ _ W2 Hd).
+  - rewrite ovf_noflag by auto. apply G_never_silent; auto.
+    + eapply wf_tasks_fx_noflag; eauto.
+    + apply meta_ok_prezero; auto.
+Qed.
+
+Theorem GX_iff ts a r :
+  wf_tasks_fx fx sparse ts -> 0 <= cap -> 0 <= capz -> meta_ok cap sparse a r ->
+  ovf (run ts a r) = false <-> fits cap capz sparse ts.
+Proof.
+  intros Hw Hc Hcz Hm. unfold efc_run. pose proof (meta_ok_prezero fx _ _ _ _ Hm) as Hm'.
+  destruct (f_flag fx) eqn:F.
+  - destruct (wf_tasks_fx_flag _ _ _ Hw) as [W2 Wa]. split.
+    + intros H. destruct (ovB cap capz sparse (run_tasks cap capz sparse ts (init_st (prezero fx a) (prezero fx r)))) eqn:B.
+      * rewrite ovf_flag_true in H; auto. discriminate.
+      * apply (GB_exact cap capz sparse ts _ _ W2 Hc Hcz B).
+    + intros Hf. pose proof (GB_fits cap capz sparse ts (prezero fx a) (prezero fx r) W2 Hc Hcz Hf) as B.
+      rewrite ovf_flag; auto. apply probe_fits; auto.
+  - rewrite ovf_noflag by auto. apply overflow_iff_fits; auto. eapply wf_tasks_fx_noflag; eauto.
+Qed.
+
+Theorem GX_exact ts a r :
+  wf_tasks_fx fx sparse ts -> 0 <= cap -> 0 <= capz -> meta_ok cap sparse a r ->
+  ovf (run ts a r) = false ->
+  let s := run ts a r in
+  dropped_any s = false /\
+  map content (s_rows s) = expected_rows ts /\
+  map w_efcid (s_rows s) = zrange (total_rows ts) /\
+  forallb w_complete (s_rows s) = true /\
+  s_n s = total_rows ts /\ s_z s = znz sparse (total_nnz ts) /\
+  s_ne s = tcount 0 ts /\ s_nf s = tcount 1 ts /\ s_nl s = tcount 2 ts.
+Proof.
+  intros Hw Hc Hcz Hm H. unfold efc_run in *. pose proof (meta_ok_prezero fx _ _ _ _ Hm) as Hm'.
+  destruct (f_flag fx) eqn:F.
+  - destruct (wf_tasks_fx_flag _ _ _ Hw) as [W2 Wa].
+    destruct (ovB cap capz sparse (run_tasks cap capz sparse ts (init_st (prezero fx a) (prezero fx r)))) eqn:B.
+    + rewrite ovf_flag_true in H; auto. discriminate.
+    + pose proof (GB_exact cap capz sparse ts _ _ W2 Hc Hcz B) as G. cbv zeta in G. cbv zeta. tauto.
+  - rewrite ovf_noflag in H by auto. apply G_exact; auto. eapply wf_tasks_fx_noflag; eauto.
+Qed.
+
+Theorem GX_sched ts ts' a r a' r' :
+  wf_tasks_fx fx sparse ts -> 0 <= cap -> 0 <= capz -> meta_ok cap sparse a r -> meta_ok cap sparse a' r' ->
+  Permutation ts ts' -> ovf (run ts a r) = false -> ovf (run ts' a' r') = false.
+Proof.
+  intros Hw Hc Hcz Hm Hm' P Hov.
+  pose proof (wf_tasks_fx_perm fx sparse ts ts' P Hw) as Hw'.
+  apply (GX_iff ts a r Hw Hc Hcz Hm) in Hov. apply (GX_iff ts' a' r' Hw' Hc Hcz Hm').
+  destruct (perm_totals ts ts' P) as (E1 & E2 & _). destruct Hov as [F1 F2].
+  split; [lia|]. intros S. specialize (F2 S). lia.
+Qed.
+
+End OneFx.
+
+Theorem GX_ample fx cap capz cap' capz' sparse ts ts' a r a' r' :
+  fx_ok fx = true -> wf_tasks_fx fx sparse ts -> 0 <= cap -> 0 <= capz -> 0 <= cap' -> 0 <= capz' ->
+  meta_ok cap sparse a r -> meta_ok cap' sparse a' r' -> Permutation ts ts' ->
+  overflowed_fx fx cap capz sparse (efc_run fx cap capz sparse ts a r) = false ->
+  overflowed_fx fx cap' capz' sparse (efc_run fx cap' capz' sparse ts' a' r') = false ->
+  let s := efc_run fx cap capz sparse ts a r in
+  let s' := efc_run fx cap' capz' sparse ts' a' r' in
+  Permutation (map content (s_rows s)) (map content (s_rows s')) /\
+  s_n s = s_n s' /\ s_z s = s_z s' /\ s_ne s = s_ne s' /\ s_nf s = s_nf s' /\ s_nl s = s_nl s'.
+Proof.
+  intros Hfx Hw Hc Hcz Hc' Hcz' Hm Hm' P H1 H2.
+  pose proof (wf_tasks_fx_perm fx sparse ts ts' P Hw) as Hw'.
+  destruct (GX_exact fx cap capz sparse Hfx ts a r Hw Hc Hcz Hm H1) as (_ & R1 & _ & _ & N1 & Z1 & E1 & F1 & L1).
+  destruct (GX_exact fx cap' capz' sparse Hfx ts' a' r' Hw' Hc' Hcz' Hm' H2) as (_ & R2 & _ & _ & N2 & Z2 & E2 & F2 & L2).
+  destruct (perm_totals ts ts' P) as (T1 & T2 & T3 & T4).
+  cbv zeta. rewrite R1, R2, N1, N2, Z1, Z2, E1, E2, F1, F2, L1, L2, T1, T2, !T3. repeat split; auto.
+Qed.
+
+(* ------------------------------ part 14 ------------------------------ *)
+Definition uses_fx (bs : list builder) (ts : list task) : Prop :=
+  Forall (fun t => In (t_b t) bs /\ wf_task t /\ Forall act_ok (t_reqs t)) ts.
+Lemma uses_fx_wf fx sparse bs ts : wf_builders_fx fx sparse bs = true -> uses_fx bs ts -> wf_tasks_fx fx sparse ts.
+Proof.
+  unfold wf_builders_fx, uses_fx, wf_tasks_fx. intros H U. eapply Forall_impl; [|exact U].
+  intros t (Hin & Ht & Ha). rewrite forallb_forall in H. auto.
+Qed.
+Lemma uses_fx_uses bs ts : uses_fx bs ts -> uses bs ts.
+Proof. unfold uses_fx, uses. intros U. eapply Forall_impl; [|exact U]. intros t (A & B & _). auto. Qed.
+
+Definition requests_use_fx (rbs sbs : list builder) (rq : requests) : Prop :=
+  uses_fx rbs (r_efc rq) /\ uses sbs (r_bp rq) /\ uses sbs (r_np rq) /\ uses sbs (r_dof rq).
+
+Section ProjFx.
+Variables (fx : nnzfix) (zskip : bool) (c : caps) (sparse : bool) (a r : list Z) (ov0 : Z) (rq : requests).
+Notation R := (run_builders fx zskip c sparse a r ov0 rq).
+Notation SE := (efc_run fx (njmax c) (njmax_nnz c) sparse (r_efc rq) a r).
+Lemma rbx_efc : x_efc R = finish fx (njmax c) (njmax_nnz c) sparse SE. Proof. reflexivity. Qed.
+Lemma rbx_bp : x_bp R = run_collision zskip (naconmax c) (r_bp rq). Proof. reflexivity. Qed.
+Lemma rbx_np : x_np R = run_collision zskip (naconmax c) (r_np rq). Proof. reflexivity. Qed.
+Lemma rbx_dof : x_dof R = run_tasks (nvmax c) 0 false (r_dof rq) (init_st [] []). Proof. reflexivity. Qed.
+Lemma rbx_nefc : x_nefc R = ov_nefc (njmax c) SE. Proof. reflexivity. Qed.
+Lemma rbx_nnz : x_nnz R = ov_nnz_fx fx (njmax c) (njmax_nnz c) sparse SE. Proof. reflexivity. Qed.
+Lemma rbx_broad : x_broad R = ov_nefc (naconmax c) (x_bp R). Proof. reflexivity. Qed.
+Lemma rbx_narrow : x_narrow R = ov_nefc (naconmax c) (x_np R). Proof. reflexivity. Qed.
+Lemma rbx_nvmax : x_nvmax R = ov_nefc (nvmax c) (x_dof R). Proof. reflexivity. Qed.
+Lemma rbx_word : x_word R = Z.lor ov0 (bitz (x_nefc R) 1 + bitz (x_nnz R) 2 + bitz (x_broad R) 4 + bitz (x_narrow R) 8 + bitz (x_nvmax R) 128).
+Proof. reflexivity. Qed.
+End ProjFx.
+Ltac rbxsimpl := rewrite ?rbx_nefc, ?rbx_nnz, ?rbx_broad, ?rbx_narrow, ?rbx_nvmax, ?rbx_efc, ?rbx_bp, ?rbx_np, ?rbx_dof in *.
+
+Lemma fin_drop fx cap capz sparse s : dropped_any (finish fx cap capz sparse s) = dropped_any s.
+Proof. apply finish_core. Qed.
+
+Section WholeFx.
+Variables (fx : nnzfix) (rbs sbs : list builder) (sparse zskip : bool).
+Hypothesis Hfx : fx_ok fx = true.
+Hypothesis Hrbs : wf_builders_fx fx sparse rbs = true.
+Hypothesis Hsbs : wf_builders false sbs = true.
+
+Theorem never_silent_fx : forall c adr0 rnz0 ov0 rq,
+  collision_runs zskip c -> requests_use_fx rbs sbs rq -> meta_ok (njmax c) sparse adr0 rnz0 ->
+  dropped (run_builders fx zskip c sparse adr0 rnz0 ov0 rq) = true ->
+  overflow_any (run_builders fx zskip c sparse adr0 rnz0 ov0 rq) = true.
+Proof.
+  intros c a r ov0 rq Hz (U1 & U2 & U3 & U4) Hm Hd.
+  unfold dropped, overflow_any in *. rbxsimpl. rewrite !(run_collision_runs _ _ _ Hz) in *. rewrite fin_drop in Hd.
+  pose proof (GX_never_silent fx (njmax c) (njmax_nnz c) sparse Hfx (r_efc rq) a r (uses_fx_wf _ _ _ _ Hrbs U1) Hm) as A1.
+  pose proof (G_never_silent (naconmax c) 0 false (r_bp rq) [] [] (uses_wf _ _ _ Hsbs U2) (meta_dense _)) as A2.
+  pose proof (G_never_silent (naconmax c) 0 false (r_np rq) [] [] (uses_wf _ _ _ Hsbs U3) (meta_dense _)) as A3.
+  pose proof (G_never_silent (nvmax c) 0 false (r_dof rq) [] [] (uses_wf _ _ _ Hsbs U4) (meta_dense _)) as A4.
+  rewrite overflowed_dense in A2, A3, A4. unfold overflowed_fx in A1.
+  repeat (apply orb_prop in Hd; destruct Hd as [Hd|Hd]).
+  - apply A1 in Hd. apply orb_prop in Hd. destruct Hd as [-> | ->]; simpl; auto. rewrite !orb_true_r. auto.
+  - rewrite (A2 Hd). rewrite !orb_true_r. auto.
+  - rewrite (A3 Hd). rewrite !orb_true_r. auto.
+  - rewrite (A4 Hd). rewrite !orb_true_r. auto.
+Qed.
+
+Theorem no_overflow_same_as_ample_fx : forall c c' adr0 rnz0 adr0' rnz0' ov0 ov0' rq rq',
+  collision_runs zskip c -> collision_runs zskip c' ->
+  requests_use_fx rbs sbs rq -> is_schedule rq rq' -> caps_nonneg c -> caps_nonneg c' ->
+  meta_ok (njmax c) sparse adr0 rnz0 -> meta_ok (njmax c') sparse adr0' rnz0' ->
+  overflow_any (run_builders fx zskip c sparse adr0 rnz0 ov0 rq) = false ->
+  overflow_any (run_builders fx zskip c' sparse adr0' rnz0' ov0' rq') = false ->
+  dropped (run_builders fx zskip c sparse adr0 rnz0 ov0 rq) = false /\
+  map content (s_rows (x_efc (run_builders fx zskip c sparse adr0 rnz0 ov0 rq))) = expected_rows (r_efc rq) /\
+  same_result (run_builders fx zskip c sparse adr0 rnz0 ov0 rq) (run_builders fx zskip c' sparse adr0' rnz0' ov0' rq').
+Proof.
+  intros c c' a r a' r' ov0 ov0' rq rq' Hz Hz' (U1 & U2 & U3 & U4) (P1 & P2 & P3 & P4)
+         (C1 & C2 & C3 & C4) (C1' & C2' & C3' & C4') Hm Hm' H H'.
+  apply overflow_any_false in H. apply overflow_any_false in H'.
+  destruct H as (O1 & O2 & O3 & O4 & O5). destruct H' as (O1' & O2' & O3' & O4' & O5').
+  unfold dropped, same_result. rbxsimpl.
+  rewrite !(run_collision_runs _ _ _ Hz) in *. rewrite !(run_collision_runs _ _ _ Hz') in *.
+  pose proof (uses_fx_wf _ _ _ _ Hrbs U1) as W1. pose proof (uses_wf _ _ _ Hsbs U2) as W2.
+  pose proof (uses_wf _ _ _ Hsbs U3) as W3. pose proof (uses_wf _ _ _ Hsbs U4) as W4.
+  set (se := efc_run fx (njmax c) (njmax_nnz c) sparse (r_efc rq) a r) in *.
+  set (se' := efc_run fx (njmax c') (njmax_nnz c') sparse (r_efc rq') a' r') in *.
+  assert (E1 : overflowed_fx fx (njmax c) (njmax_nnz c) sparse se = false) by (unfold overflowed_fx; rewrite O1, O2; auto).
+  assert (E1' : overflowed_fx fx (njmax c') (njmax_nnz c') sparse se' = false) by (unfold overflowed_fx; rewrite O1', O2'; auto).
+  destruct (GX_exact fx _ _ _ Hfx _ _ _ W1 C1 C2 Hm E1) as (D1 & R1 & _). fold se in D1, R1.
+  assert (Hd0 : forall cap ts, wf_tasks false ts -> 0 <= cap ->
+            ov_nefc cap (run_tasks cap 0 false ts (init_st [] [])) = false ->
+            dropped_any (run_tasks cap 0 false ts (init_st [] [])) = false).
+  { intros cap ts Hw Hc Ho.
+    pose proof (G_exact cap 0 false ts [] [] Hw Hc (Z.le_refl 0) (meta_dense cap)) as X.
+    rewrite overflowed_dense in X. apply X in Ho. cbv zeta in Ho. tauto. }
+  pose proof (Hd0 _ _ W2 C3 O3) as D2. pose proof (Hd0 _ _ W3 C3 O4) as D3. pose proof (Hd0 _ _ W4 C4 O5) as D4.
+  pose proof (finish_core fx (njmax c) (njmax_nnz c) sparse se) as FC. cbv zeta in FC.
+  destruct FC as (K1 & K2 & K3 & K4 & K5 & K6 & _ & _ & K9).
+  pose proof (finish_core fx (njmax c') (njmax_nnz c') sparse se') as FC'. cbv zeta in FC'.
+  destruct FC' as (K1' & K2' & K3' & K4' & K5' & K6' & _ & _ & K9').
+  split; [rewrite K9, D1, D2, D3, D4; auto|]. split; [rewrite K6; exact R1|].
+  unfold same_rows, same_counters. rewrite K1, K2, K3, K4, K5, K6, K1', K2', K3', K4', K5', K6'.
+  split; [|split; [|split]].
+  - pose proof (GX_ample fx _ _ _ _ sparse _ _ a r a' r' Hfx W1 C1 C2 C1' C2' Hm Hm' P1 E1 E1') as G. cbv zeta in G. fold se se' in G. tauto.
+  - pose proof (G_ample (naconmax c) 0 (naconmax c') 0 false _ _ [] [] [] [] W2 C3 (Z.le_refl 0) C3' (Z.le_refl 0) (meta_dense _) (meta_dense _) P2) as G.
+    rewrite !overflowed_dense in G. specialize (G O3 O3'). cbv zeta in G. tauto.
+  - pose proof (G_ample (naconmax c) 0 (naconmax c') 0 false _ _ [] [] [] [] W3 C3 (Z.le_refl 0) C3' (Z.le_refl 0) (meta_dense _) (meta_dense _) P3) as G.
+    rewrite !overflowed_dense in G. specialize (G O4 O4'). cbv zeta in G. tauto.
+  - pose proof (G_ample (nvmax c) 0 (nvmax c') 0 false _ _ [] [] [] [] W4 C4 (Z.le_refl 0) C4' (Z.le_refl 0) (meta_dense _) (meta_dense _) P4) as G.
+    rewrite !overflowed_dense in G. specialize (G O5 O5'). cbv zeta in G. tauto.
+Qed.
+
+Theorem alloc_sched_fx : forall c adr0 rnz0 adr0' rnz0' ov0 rq rq',
+  collision_runs zskip c -> requests_use_fx rbs sbs rq -> is_schedule rq rq' -> caps_nonneg c ->
+  meta_ok (njmax c) sparse adr0 rnz0 -> meta_ok (njmax c) sparse adr0' rnz0' ->
+  overflow_any (run_builders fx zskip c sparse adr0 rnz0 ov0 rq) = false ->
+  overflow_any (run_builders fx zskip c sparse adr0' rnz0' ov0 rq') = false /\
+  x_word (run_builders fx zskip c sparse adr0' rnz0' ov0 rq') = x_word (run_builders fx zskip c sparse adr0 rnz0 ov0 rq) /\
+  same_result (run_builders fx zskip c sparse adr0 rnz0 ov0 rq) (run_builders fx zskip c sparse adr0' rnz0' ov0 rq').
+Proof.
+  intros c a r a' r' ov0 rq rq' Hz U S C Hm Hm' H.
+  assert (H' : overflow_any (run_builders fx zskip c sparse a' r' ov0 rq') = false).
+  { destruct U as (U1 & U2 & U3 & U4). destruct S as (P1 & P2 & P3 & P4). destruct C as (C1 & C2 & C3 & C4).
+    apply overflow_any_false in H. destruct H as (O1 & O2 & O3 & O4 & O5). unfold overflow_any. rbxsimpl.
+    rewrite !(run_collision_runs _ _ _ Hz) in *.
+    pose proof (GX_sched fx (njmax c) (njmax_nnz c) sparse Hfx _ _ a r a' r' (uses_fx_wf _ _ _ _ Hrbs U1) C1 C2 Hm Hm' P1) as G1.
+    unfold overflowed_fx in G1. rewrite O1, O2 in G1. specialize (G1 eq_refl). apply orb_false_elim in G1. destruct G1 as [-> ->].
+    pose proof (G_sched (naconmax c) 0 false _ _ [] [] [] [] (uses_wf _ _ _ Hsbs U2) C3 (Z.le_refl 0) (meta_dense _) (meta_dense _) P2) as G2.
+    rewrite !overflowed_dense in G2. rewrite (G2 O3).
+    pose proof (G_sched (naconmax c) 0 false _ _ [] [] [] [] (uses_wf _ _ _ Hsbs U3) C3 (Z.le_refl 0) (meta_dense _) (meta_dense _) P3) as G3.
+    rewrite !overflowed_dense in G3. rewrite (G3 O4).
+    pose proof (G_sched (nvmax c) 0 false _ _ [] [] [] [] (uses_wf _ _ _ Hsbs U4) C4 (Z.le_refl 0) (meta_dense _) (meta_dense _) P4) as G4.
+    rewrite !overflowed_dense in G4. rewrite (G4 O5). reflexivity. }
+  split; [exact H'|]. split.
+  - pose proof (overflow_any_false _ H) as (A1 & A2 & A3 & A4 & A5).
+    pose proof (overflow_any_false _ H') as (B1 & B2 & B3 & B4 & B5).
+    rewrite !rbx_word, A1, A2, A3, A4, A5, B1, B2, B3, B4, B5. reflexivity.
+  - destruct (no_overflow_same_as_ample_fx c c a r a' r' ov0 ov0 rq rq' Hz Hz U S C C Hm Hm' H H') as (_ & _ & R). exact R.
+Qed.
+
+End WholeFx.
+
+Theorem alloc_in_bounds_fx : forall fx bs zskip c sparse adr0 rnz0 ov0 rq,
+  safe_builders bs = true -> requests_use bs bs rq ->
+  let r := run_builders fx zskip c sparse adr0 rnz0 ov0 rq in
+  bounds_ok (njmax c) (njmax_nnz c) (x_efc r) /\
+  bounds_ok (naconmax c) 0 (x_bp r) /\ bounds_ok (naconmax c) 0 (x_np r) /\ bounds_ok (nvmax c) 0 (x_dof r).
+Proof.
+  intros fx bs zskip c sparse a r ov0 rq Hs (U1 & U2 & U3 & U4). cbv zeta.
+  rewrite rbx_efc, rbx_bp, rbx_np, rbx_dof. unfold run_collision.
+  split.
+  { pose proof (finish_core fx (njmax c) (njmax_nnz c) sparse (efc_run fx (njmax c) (njmax_nnz c) sparse (r_efc rq) a r)) as FC.
+    cbv zeta in FC. destruct FC as (_ & _ & _ & _ & _ & K6 & K7 & K8 & _).
+    unfold bounds_ok. rewrite K6, K7, K8. apply G_bounds. eapply uses_safe; eauto. }
+  assert (Hskip : forall cap qs, bounds_ok cap 0 (skip_all qs (init_st [] []))).
+  { intros. unfold bounds_ok, skip_all, init_st; simpl. repeat split; constructor. }
+  split; [|split].
+  - destruct (zskip && (naconmax c =? 0)); [apply Hskip|apply G_bounds; eapply uses_safe; eauto].
+  - destruct (zskip && (naconmax c =? 0)); [apply Hskip|apply G_bounds; eapply uses_safe; eauto].
+  - apply G_bounds; eapply uses_safe; eauto.
+Qed.
+
+Lemma overflow_word_nonzero_fx fx zskip c sparse a r ov0 rq :
+  overflow_any (run_builders fx zskip c sparse a r ov0 rq) = true -> x_word (run_builders fx zskip c sparse a r ov0 rq) <> 0.
+Proof. intros H. eapply word_nonzero; [apply rbx_word|exact H]. Qed.
+
+(* the repaired code (prezero + flag + clamp) needs only exact guards: explicit builder values *)
+Definition allfix : nnzfix := mkFix true true true.
+Example repaired_flags_F2 :
+  let rq := mkReqs [mkT joint_like [mkQ 0 0 0 2 2]; mkT joint_like [mkQ 0 1 0 2 2]] [] [] [] in
+  wf_builders_fx allfix true [joint_like; contact_like; inexact_like] = true /\
+  x_word (run_builders allfix false (mkCaps 3 3 0 0) true [5;5;5] [7;7;7] 0 rq) = 2 /\
+  s_rnz (x_efc (run_builders allfix false (mkCaps 3 3 0 0) true [5;5;5] [7;7;7] 0 rq)) = [2; 2; 0] /\
+  x_word (run_builders allfix false (mkCaps 3 4 0 0) true [5;5;5] [7;7;7] 0 rq) = 0.
 Proof. vm_compute. auto. Qed.
